@@ -69,16 +69,36 @@ def _wrap_func(rng, funcname, *args, size=None, chunks="auto", extra_chunks=(), 
         args = tuple(_broadcast_array_arg(arg, size, target_chunks) for arg in args)
         kwargs = {k: _broadcast_array_arg(v, size, target_chunks) for k, v in kwargs.items()}
 
+    # The array is one realization, fixed now: the node holds a frozen snapshot
+    # of the generator (its seeds are a pure function of the node's operands, so
+    # rewrites and pickling cannot change them) and the live generator is then
+    # advanced by exactly what the node derives its seeds from.
+    import copy
+
+    live, rng = rng, copy.deepcopy(rng)
+
     # Dispatch to specific subclass if available
     if funcname == "normal":
         loc = kwargs.pop("loc", args[0] if len(args) > 0 else 0.0)
         scale = kwargs.pop("scale", args[1] if len(args) > 1 else 1.0)
-        return new_collection(RandomNormal(rng, size, chunks, extra_chunks, loc, scale))
+        expr = RandomNormal(rng, size, chunks, extra_chunks, loc, scale)
     elif funcname == "poisson":
         lam = args[0] if len(args) > 0 else kwargs.pop("lam", 1.0)
-        return new_collection(RandomPoisson(rng, size, chunks, extra_chunks, lam))
+        expr = RandomPoisson(rng, size, chunks, extra_chunks, lam)
+    else:
+        # Fallback: use generic Random with args/kwargs tuples
+        from ._expr import Random
 
-    # Fallback: use generic Random with args/kwargs tuples
-    from ._expr import Random
+        expr = Random(rng, funcname, size, chunks, extra_chunks, args, kwargs)
+    _advance(live, len(expr._info[2]))
+    return new_collection(expr)
 
-    return new_collection(Random(rng, funcname, size, chunks, extra_chunks, args, kwargs))
+
+def _advance(rng, nblocks):
+    """Consume from the live generator what ``Random._info`` derives per array."""
+    from ._generator import Generator
+
+    if isinstance(rng, Generator):
+        rng._bit_generator._seed_seq.spawn(nblocks)
+    else:
+        rng._numpy_state.bytes(16)
